@@ -836,6 +836,7 @@ func (e *Exec) openMapKeys(n *JNode) {
 }
 
 func registerJSON() {
+	registerJSONMut()
 	intrinsics["encoding/json.Marshal"] = func(e *Exec, th *Thread, a []Value) Value {
 		iv := a[0].(IfaceV)
 		if iv.t == nil {
@@ -894,5 +895,162 @@ func registerJSON() {
 			panic(pathEnd{kind: "inconclusive", msg: "vJSONText: " + err.Error()})
 		}
 		return &BytesV{json: n}
+	}
+}
+
+// ---- bounded structural mutation of a valid encoding (C02) ---------------------
+
+type jpos struct {
+	node   *JNode
+	parent *JNode
+	idx    int // index in parent.arr or parent.vals
+}
+
+func listPositions(n *JNode, parent *JNode, idx int, out *[]jpos) {
+	*out = append(*out, jpos{node: n, parent: parent, idx: idx})
+	switch n.kind {
+	case jArr:
+		for i, c := range n.arr {
+			listPositions(c, n, i, out)
+		}
+	case jObj:
+		for i, c := range n.vals {
+			listPositions(c, n, i, out)
+		}
+	}
+}
+
+// symbolise replaces template leaves: strings beginning with '?' become symbolic
+// strings of capacity cap, the number -1 becomes a symbolic number.
+func (e *Exec) symbolise(n *JNode, tag string, cap int, seq *int) {
+	switch n.kind {
+	case jStr:
+		if c, ok := n.s.Concrete(); ok && len(c) > 0 && c[0] == '?' {
+			*seq++
+			s, _ := e.freshStr(fmt.Sprintf("nd.%s.s%d", tag, *seq), cap)
+			n.s = s
+		}
+	case jNum:
+		if n.num.IsConst() && n.num.SVal() == -1 {
+			*seq++
+			n.num = e.fresh(fmt.Sprintf("nd.%s.n%d", tag, *seq), 64)
+			e.assume(BVCmp("bvsle", IntC(-1000000), n.num))
+			e.assume(BVCmp("bvsle", n.num, IntC(1000000)))
+		}
+	case jArr:
+		for _, c := range n.arr {
+			e.symbolise(c, tag, cap, seq)
+		}
+	case jObj:
+		for i := range n.keys {
+			if c, ok := n.keys[i].Concrete(); ok && len(c) > 0 && c[0] == '?' {
+				*seq++
+				s, _ := e.freshStr(fmt.Sprintf("nd.%s.k%d", tag, *seq), cap)
+				n.keys[i] = s
+			}
+			e.symbolise(n.vals[i], tag, cap, seq)
+		}
+	}
+}
+
+const nMutOps = 9
+
+func (e *Exec) mutate(root *JNode, tag string, cap int, seq *int, fixedPos int) *JNode {
+	var ps []jpos
+	listPositions(root, nil, 0, &ps)
+	pi := fixedPos
+	if pi < 0 || pi >= len(ps) {
+		pi = e.choose("mutpos:"+tag, len(ps), nil, false)
+	}
+	op := e.choose("mutop:"+tag, nMutOps, nil, false)
+	p := ps[pi]
+	*seq++
+	nm := fmt.Sprintf("nd.%s.m%d", tag, *seq)
+	var repl *JNode
+	switch op {
+	case 0: // delete
+		if p.parent == nil {
+			panic(pathEnd{kind: "infeasible"})
+		}
+		if p.parent.kind == jArr {
+			p.parent.arr = append(append([]*JNode{}, p.parent.arr[:p.idx]...), p.parent.arr[p.idx+1:]...)
+		} else {
+			pa := p.parent
+			pa.keys = append(append([]*StrV{}, pa.keys[:p.idx]...), pa.keys[p.idx+1:]...)
+			pa.vals = append(append([]*JNode{}, pa.vals[:p.idx]...), pa.vals[p.idx+1:]...)
+			if len(pa.cnds) > p.idx {
+				pa.cnds = append(append([]*Term{}, pa.cnds[:p.idx]...), pa.cnds[p.idx+1:]...)
+			}
+		}
+		return root
+	case 1:
+		if p.node.kind == jNull {
+			panic(pathEnd{kind: "infeasible"})
+		}
+		repl = &JNode{kind: jNull}
+	case 2:
+		s, _ := e.freshStr(nm+".s", cap)
+		repl = &JNode{kind: jStr, s: s}
+	case 3:
+		repl = &JNode{kind: jNum, num: e.fresh(nm+".n", 64)}
+		e.assume(BVCmp("bvsle", IntC(-1000000), repl.num))
+		e.assume(BVCmp("bvsle", repl.num, IntC(1000000)))
+	case 4:
+		repl = &JNode{kind: jBool, b: e.fresh(nm+".b", 0)}
+	case 5:
+		repl = &JNode{kind: jObj}
+	case 6:
+		repl = &JNode{kind: jArr}
+	case 7: // wrap in an array
+		repl = &JNode{kind: jArr, arr: []*JNode{p.node}}
+	case 8: // alien field
+		if p.node.kind != jObj {
+			panic(pathEnd{kind: "infeasible"})
+		}
+		p.node.addKey(ConcStr("x-alien"), &JNode{kind: jNum, num: IntC(1)}, nil)
+		return root
+	}
+	if p.parent == nil {
+		return repl
+	}
+	if p.parent.kind == jArr {
+		p.parent.arr[p.idx] = repl
+	} else {
+		p.parent.vals[p.idx] = repl
+	}
+	return root
+}
+
+func registerJSONMut() {
+	{
+		intrinsics["H.nondetJSONMut"] = func(e *Exec, th *Thread, a []Value) Value {
+			tag := strArg(a[0])
+			base := strArg(a[1])
+			k := e.concInt(a[2].(*Term), "nondetJSONMut k")
+			cap := e.concInt(a[3].(*Term), "nondetJSONMut cap")
+			root, err := parseJSONText(base)
+			if err != nil {
+				panic(pathEnd{kind: "inconclusive", msg: "nondetJSONMut base: " + err.Error()})
+			}
+			seq := 0
+			e.symbolise(root, tag, cap, &seq)
+			for i := 0; i < k; i++ {
+				fixed := -1
+				if i == 0 {
+					if v, ok := e.x.params["mutpos"]; ok {
+						fixed = v
+					}
+				}
+				if i > 0 || fixed < 0 {
+					// "no further mutation" is an option from the second mutation on (and for unpartitioned runs)
+					if e.choose("mutmore:"+tag, 2, nil, false) == 0 {
+						break
+					}
+				}
+				root = e.mutate(root, tag, cap, &seq, fixed)
+			}
+			e.nondets = append(e.nondets, NondetRec{Tag: tag, Kind: "json", json: root})
+			return &BytesV{json: root}
+		}
 	}
 }
